@@ -5,6 +5,7 @@ From Coq Require Import ExtrOcamlBasic.
 From Coq Require Import ZArith NArith List Floats.SpecFloat.
 From RRSS Require Import Base.Outcome Base.Chars Base.F64 Base.F64Text Exec.Val Exec.ValErrorText.
 From RRSS Require Import Front.Token Front.Lexer Front.Parser Front.ParseErrorText.
+From RRSS Require Import Analysis.Visit Analysis.VisitRecorder Analysis.Fold Lint.Lint.
 From RRSS Require Import Exec.Ops Front.Ast Front.Poetic Exec.Env Exec.Interp Exec.RtErrorText.
 Extraction Language OCaml.
 Extraction "model.ml"
@@ -17,4 +18,5 @@ Extraction "model.ml"
   val_error_display val_error_name
   binop_apply unop_apply compute_value poetic_digits exec_program rt_error_display rt_error_name
   range_concat range_new stmt_line block_line lower_name
-  lex match_keyword ttype_name is_word parse parse_error_display perr_code_name perr_line.
+  lex match_keyword ttype_name is_word parse parse_error_display perr_code_name perr_line
+  record_program events_program fold_num fold_str lint diag_display.
